@@ -192,10 +192,6 @@ func (ctx *checkCtx) checkFrame(jr *JobResult, fa *FrameAnalysis, spec *FrameSpe
 			kind = "unsync-write"
 		}
 		name := fmt.Sprintf("%s#%s:%s@%s<-%s", key, kind, x.k.Field, storeFn, siteFn)
-		if seenName[name] {
-			continue
-		}
-		seenName[name] = true
 		allowed := matchField(spec.Allows, ctx.cs.FieldGroups, x.k.Field)
 		if len(spec.Denies) > 0 && !matchField(spec.Denies, ctx.cs.FieldGroups, x.k.Field) {
 			allowed = true
@@ -208,6 +204,15 @@ func (ctx *checkCtx) checkFrame(jr *JobResult, fa *FrameAnalysis, spec *FrameSpe
 		if strings.HasPrefix(x.k.Field, "global:") && spec.NoGlobals && !allowed {
 			allowed = false
 		}
+		if allowed {
+			// a permitted write is recorded once per field: which of several
+			// call chains the analysis met first is not part of its name
+			name = fmt.Sprintf("%s#%s:%s", key, kind, x.k.Field)
+		}
+		if seenName[name] {
+			continue
+		}
+		seenName[name] = true
 		detail := fmt.Sprintf("may write %s of objects in region %s; witness chain: %s (%s)", x.k.Field, objName(fn, x.k.Obj), strings.Join(x.w.Chain, " -> "), x.w.Pos)
 		if allowed {
 			add(name, kind, "proved", "")
